@@ -1,6 +1,6 @@
 (* Wire entry points of the C12 models (evaluation cache of Function; polynomial family and its integrals). *)
 From Coq Require Import ZArith List QArith Qcanon Bool.
-From SG Require Import Base.Sx Base.QcUtil Model.FunCache Model.FunPoly Model.FunCacheVec Model.FunGenz.
+From SG Require Import Base.Sx Base.QcUtil Model.FunCache Model.FunPoly Model.FunCacheVec Model.FunGenz Model.FunGenzSym.
 Import ListNotations.
 Open Scope Z_scope.
 
@@ -108,6 +108,18 @@ Fixpoint of_varr (a : varr) : sx :=
 Definition of_shape (s : option (list nat)) : sx :=
   match s with Some l => Lv (map (fun n => Zv (Z.of_nat n)) l) | None => sx_err 7 end.
 
+
+(* ---------------------------------------------------------------- symbolic models of the exp / power classes *)
+Definition of_atom (a : eatom) : sx :=
+  match a with AExp t => Lv [Zv 0; of_Qc t] | APow x => Lv [Zv 1; of_Qc x] | AOne => Lv [Zv 2] end.
+Definition of_lin (l : lin) : sx := Lv (map (fun ca => Lv [of_Qc (fst ca); of_atom (snd ca)]) l).
+Definition of_sym (s : sym) : sx := Lv (map of_lin s).
+Definition get_box (ab : sx) : option (list Qc * list Qc) :=
+  match ab with
+  | Lv [a; b] => match get_LQc a, get_LQc b with Some a, Some b => Some (a, b) | _, _ => None end
+  | _ => None
+  end.
+
 (* sub 0: (olen (fix_single fix_empty) table ops) -> ((result size dict cache_on) ...)   [eval := table lookup]
    sub 1: (fn n points boxes) -> ((dim_ok) (per point: eval, denotation value, vectorised row)
                                   (per box: integral as coded, integral after fixes, formal integral))
@@ -115,6 +127,11 @@ Definition of_shape (s : option (list nat)) : sx :=
           [eval := eval_table lookup; eval_vectorized := row-wise vec_table lookup; ops 0..5 as in sub 0, (6 b) = debug := b]
    sub 4: (coeffs points boxes) -> GenzCornerPeak: ((per point: eval, vectorised row) (per box: analytic integral as coded,
           the same value as iterated difference / dim!))
+   sub 5: (coeffs borders points boxes) -> GenzDiscontinious, symbolic: per point (0) = the value 0.0 | (1 t) = exp(t);
+          per box (0) = early return 0.0 | (1 sym); sym = product of sums of coefficient * atom, atom (0 t) = exp(t), (1 x) = x**(1+y), (2) = 1
+   sub 6: (coeffs midpoints points boxes) -> GenzC0, symbolic: per point t (eval = exp(t)); per box sym
+   sub 7: (boxes) -> FunctionExpVar integral, symbolic: per box (0) | (1 y constant sym)
+   sub 8: (which points boxes) -> exact: which = 0 FunctionDiagonalDiscont, 1 FunctionG: per point eval, per box integral
    sub 3: (olen eval_table depth array) -> (result-array-of-the-generic-eval_vectorized shape-of-result shape-of-argument) *)
 Definition entry_C12 (sub : Z) (a : sx) : sx :=
   match sub, a with
@@ -159,6 +176,37 @@ Definition entry_C12 (sub : Z) (a : sx) : sx :=
                                | _ => sx_err 4
                                end) boxes)]
     | _, _ => sx_err 8
+    end
+  | 5, Lv [cs; bs; Lv pts; Lv boxes] =>
+    match get_LQc cs, get_LQc bs, opt_all (map get_LQc pts), opt_all (map get_box boxes) with
+    | Some cs, Some bs, Some pts, Some boxes =>
+        Lv [Lv (map (fun x => match gd_eval_sym cs bs x 0 with Some t => Lv [Zv 1; of_Qc t] | None => Lv [Zv 0] end) pts);
+            Lv (map (fun ab => match gd_int_sym cs bs (fst ab) (snd ab) with Some s => Lv [Zv 1; of_sym s] | None => Lv [Zv 0] end) boxes)]
+    | _, _, _, _ => sx_err 9
+    end
+  | 6, Lv [cs; ms; Lv pts; Lv boxes] =>
+    match get_LQc cs, get_LQc ms, opt_all (map get_LQc pts), opt_all (map get_box boxes) with
+    | Some cs, Some ms, Some pts, Some boxes =>
+        Lv [Lv (map (fun x => of_Qc (c0_eval_sym cs ms x 0)) pts);
+            Lv (map (fun ab => of_sym (c0_int_sym cs ms (fst ab) (snd ab))) boxes)]
+    | _, _, _, _ => sx_err 10
+    end
+  | 7, Lv boxes =>
+    match opt_all (map get_box boxes) with
+    | Some boxes =>
+        Lv (map (fun ab => match ev_int_sym (fst ab) (snd ab) with
+                           | Some (y, k, s) => Lv [Zv 1; of_Qc y; of_Qc k; of_sym s]
+                           | None => Lv [Zv 0]
+                           end) boxes)
+    | None => sx_err 11
+    end
+  | 8, Lv [Zv which; Lv pts; Lv boxes] =>
+    match opt_all (map get_LQc pts), opt_all (map get_box boxes) with
+    | Some pts, Some boxes =>
+        if Z.eqb which 0
+        then Lv [Lv (map (fun x => of_Qc (dd_eval x)) pts); Lv (map (fun ab => of_ires (dd_int (fst ab) (snd ab))) boxes)]
+        else Lv [Lv (map (fun x => of_Qc (g_eval x)) pts); Lv (map (fun ab => of_ires (g_int (fst ab) (snd ab))) boxes)]
+    | _, _ => sx_err 12
     end
   | _, _ => sx_err 0
   end.
